@@ -63,6 +63,13 @@ pub struct Profile {
     /// adaptive boundary worlds: run the session once, then move one offered amount so that the last
     /// (change) output's coin lands just above a CBOR width edge (DESIGN §3.2)
     pub adaptive: u64,
+    /// requested outputs that arrive through `TransactionOutput::from_bytes` in array or map form
+    pub decoded_outputs: u64,
+    /// read-only observer calls and clone hand-overs sprinkled into the history
+    pub observers: u64,
+    /// collections whose element count sits on the 23/24 CBOR head edge (outputs, withdrawals,
+    /// certificates, required signers, assets of one policy, offered UTxOs)
+    pub many: u64,
 }
 
 impl Profile {
@@ -107,6 +114,9 @@ impl Profile {
             removals: 80,
             fine_cpb: 0,
             adaptive: 0,
+            decoded_outputs: 120,
+            observers: 120,
+            many: 60,
         }
     }
 }
@@ -127,6 +137,7 @@ pub struct Gen<'p> {
     pub ref_holder: BTreeMap<ScriptId, usize>,
     pub datum_holder: BTreeMap<DatumId, usize>,
     pub key_pool: u16,
+    pub many: bool,
 }
 
 impl<'p> Gen<'p> {
@@ -147,9 +158,10 @@ impl<'p> Gen<'p> {
         if k.ref_script_price.is_none() {
             k.ref_script_price = Some((15, 1));
         }
-        let key_pool = if pm(&mut r, p.overlap_keys) { 2 + r.below(2) as u16 } else { NKEYS };
+        let many = pm(&mut r, p.many);
+        let key_pool = if many { 40 } else if pm(&mut r, p.overlap_keys) { 2 + r.below(2) as u16 } else { NKEYS };
         let w = World { network: r.below(2) as u8, magic: if r.chance(1, 2) { 764824073 } else { 1097911063 }, scripts: vec![], datums: vec![], utxos: vec![] };
-        let mut g = Gen { r, p, k, w, next_tx: 1, red: 1, native_ids: vec![], plutus_ids: vec![], ref_holder: BTreeMap::new(), datum_holder: BTreeMap::new(), key_pool };
+        let mut g = Gen { r, p, k, w, next_tx: 1, red: 1, native_ids: vec![], plutus_ids: vec![], ref_holder: BTreeMap::new(), datum_holder: BTreeMap::new(), key_pool, many };
         g.make_scripts();
         g.make_datums();
         g
@@ -538,7 +550,11 @@ pub fn generate(seed: u64, tier: Tier, p: &Profile) -> Scenario {
     let _ = explicit_value;
 
     // ---- outputs
-    let n_out = *g.r.pick(&[0usize, 1, 1, 1, 2, 2, 3, 5]);
+    let edge_count = |g: &mut Gen| -> Option<u64> { if g.many && g.r.chance(1, 3) { Some(22 + g.r.below(4)) } else { None } };
+    let n_out = match edge_count(&mut g) {
+        Some(n) => n as usize,
+        None => *g.r.pick(&[0usize, 1, 1, 1, 2, 2, 3, 5]),
+    };
     for i in 0..n_out {
         let mut assets = vec![];
         if use_assets && g.r.chance(1, 2) {
@@ -575,12 +591,13 @@ pub fn generate(seed: u64, tier: Tier, p: &Profile) -> Scenario {
         let coin = if min_coin { 0 } else { g.min_ada(extra) + if g.r.chance(1, 2) { g.amount() % 100_000_000 } else { 0 } };
         let addr = if g.r.chance(1, 8) { AddrSpec::Ent(Cred::Script(*g.r.pick(&g.plutus_ids.clone()))) } else { g.key_addr() };
         plan.need += if min_coin { g.min_ada(extra) as u128 } else { coin as u128 };
-        plan.pre.push(Op::Out(OutSpec { addr, coin, assets, datum, script_ref, min_coin }));
+        let form = if pm(&mut g.r, p.decoded_outputs) { 1 + g.r.below(2) as u8 } else { 0 };
+        plan.pre.push(Op::Out(OutSpec { addr, coin, assets, datum, script_ref, min_coin, form }));
     }
 
     // ---- certificates
     if pm(&mut g.r, p.certs) {
-        let n = 1 + g.r.below(if p.max_ops_scale > 1 { 8 } else { 3 });
+        let n = edge_count(&mut g).unwrap_or(1 + g.r.below(if p.max_ops_scale > 1 { 8 } else { 3 }));
         for _ in 0..n {
             let (c, wit) = g.cert(true);
             if let Some(w) = &wit {
@@ -602,11 +619,12 @@ pub fn generate(seed: u64, tier: Tier, p: &Profile) -> Scenario {
     }
     // ---- withdrawals
     if pm(&mut g.r, p.withdrawals) {
-        let n = 1 + g.r.below(3);
+        let many_w = edge_count(&mut g);
+        let n = many_w.unwrap_or(1 + g.r.below(3));
         let mut seen: BTreeSet<Cred> = BTreeSet::new();
-        for _ in 0..n {
+        for wi in 0..n {
             let sp = p.script_certs;
-            let c = g.any_cred(sp, true);
+            let c = if many_w.is_some() && wi >= 2 { Cred::Key(wi as u16) } else { g.any_cred(sp, true) };
             let amt = g.amount() % 100_000_000;
             if !seen.insert(c.clone()) {
                 // the same key account registered again replaces the earlier amount; script accounts are not repeated
@@ -663,6 +681,12 @@ pub fn generate(seed: u64, tier: Tier, p: &Profile) -> Scenario {
                 plan.need += coin.unwrap_or(g.min_ada(80)) as u128;
                 plan.pre.push(Op::MintAndOut { script: s, name, qty: q, addr, coin });
             } else {
+                if let Some(extra) = edge_count(&mut g) {
+                    // many assets under the same policy (the asset map's head crosses the 23/24 edge)
+                    for ai in 0..extra {
+                        plan.pre_tail.push(Op::Mint { wit: wit.clone(), name: format!("m{:02}", ai).into_bytes(), qty: 1 + (ai as i64), set: false });
+                    }
+                }
                 if pm(&mut g.r, p.removals) {
                     // the same asset minted and burnt again in later calls: the entries cancel out
                     plan.pre_tail.push(Op::Mint { wit: wit.clone(), name: name.clone(), qty: -(q as i64), set: false });
@@ -739,9 +763,10 @@ pub fn generate(seed: u64, tier: Tier, p: &Profile) -> Scenario {
         }
     }
     if pm(&mut g.r, p.req_signers) {
-        let n = 1 + g.r.below(3);
-        for _ in 0..n {
-            let k = g.kid();
+        let many_s = edge_count(&mut g);
+        let n = many_s.unwrap_or(1 + g.r.below(3));
+        for si in 0..n {
+            let k = if many_s.is_some() { si as u16 } else { g.kid() };
             plan.pre.push(if g.r.chance(1, 4) { Op::InReqSigner(k) } else { Op::ReqSigner(k) });
         }
     }
@@ -866,7 +891,7 @@ pub fn generate(seed: u64, tier: Tier, p: &Profile) -> Scenario {
                     2 => total + 1,
                     _ => (total / 2).max(g.min_ada(60 * assets.len() as u64)),
                 };
-                coll_ops.push(Op::CollReturnAndTotal(OutSpec { addr: ret_addr, coin, assets, datum: None, script_ref: None, min_coin: false }));
+                coll_ops.push(Op::CollReturnAndTotal(OutSpec { addr: ret_addr, coin, assets, datum: None, script_ref: None, min_coin: false, form: 0 }));
             }
             if g.r.chance(1, 3) {
                 // a second attempt on the same builder that is likely to be refused (return below its minimum ADA)
@@ -875,7 +900,7 @@ pub fn generate(seed: u64, tier: Tier, p: &Profile) -> Scenario {
                 if g.r.chance(1, 2) {
                     coll_ops.push(Op::CollTotalAndReturn(total.saturating_sub(1 + short), a2));
                 } else {
-                    coll_ops.push(Op::CollReturnAndTotal(OutSpec { addr: a2, coin: 1 + short, assets: vec![], datum: None, script_ref: None, min_coin: false }));
+                    coll_ops.push(Op::CollReturnAndTotal(OutSpec { addr: a2, coin: 1 + short, assets: vec![], datum: None, script_ref: None, min_coin: false, form: 0 }));
                 }
             }
         }
@@ -885,7 +910,10 @@ pub fn generate(seed: u64, tier: Tier, p: &Profile) -> Scenario {
     let approx_fee = g.k.fee_b as u128 + g.k.fee_a as u128 * 1500 + 2_000_000;
     let need = plan.need + approx_fee;
     let tight = pm(&mut g.r, p.tight);
-    let n_off = if tier == Tier::Thorough { *g.r.pick(&[1usize, 2, 3, 5, 8, 12, 20, 30, 60]) } else { *g.r.pick(&[1usize, 2, 3, 4, 5, 8, 12, 20]) };
+    let n_off_edge = edge_count(&mut g);
+    let n_off = if let Some(n) = n_off_edge {
+        n as usize
+    } else if tier == Tier::Thorough { *g.r.pick(&[1usize, 2, 3, 5, 8, 12, 20, 30, 60]) } else { *g.r.pick(&[1usize, 2, 3, 4, 5, 8, 12, 20]) };
     let mut off: Vec<usize> = vec![];
     let mut asset_left = plan.asset_need.clone();
     for b in &burn_assets {
@@ -1019,6 +1047,12 @@ pub fn generate(seed: u64, tier: Tier, p: &Profile) -> Scenario {
     ops.push(if g.r.chance(1, 10) { Op::Build } else { Op::BuildTx });
     if pm(&mut g.r, p.repeat_build) {
         ops.push(Op::BuildTx);
+    }
+    if pm(&mut g.r, p.observers) {
+        for _ in 0..(1 + g.r.below(3)) {
+            let at = g.r.usize_below(ops.len());
+            ops.insert(at, if g.r.chance(2, 3) { Op::Observe } else { Op::ForkClone });
+        }
     }
     let rng = g.rng_plan(seed);
     let hash_seed = Rng::stream(seed, 3).next();
